@@ -211,7 +211,7 @@ def run_check(args):
     failed_texts = set(ob["text"] for _, ob in failed) | set(ob["text"] for _, ob in unknown)
     failing_functions = set("%s:%s" % (r["rel"], r["qual"]) for r, _ in failed + unknown)
     for name, fl in native_fail:
-        if name.split("[case")[0] in failing_functions:
+        if name.split("[")[0] in failing_functions:
             continue        # the prover already refutes an obligation of this function
         unexplained = [t for t in fl.get("failed_clauses", []) if not any(t in ft or ft in t for ft in failed_texts)]
         if unexplained:
